@@ -53,6 +53,7 @@ class TW:
         self.sent = []                                      # (username, message) in call order of send_peer_messages
         self.cycles = 0
         self.a1_violations = []
+        self.last_skipped = set()
         self._srv_buf = bytearray()
         w.peer_connect = self._peer_connect
         w.server.on_data = self._on_server_data
@@ -84,9 +85,16 @@ class TW:
         def mt():
             # A1 monitor: at the start of a cycle no QUEUED upload may still own a task that has not
             # run its first segment
+            import inspect
+            self.last_skipped = set()
             for t in tm.transfers:
                 if t.is_upload() and t.state.VALUE.name == 'QUEUED' and t._transfer_task is not None and not t._transfer_task.done():
-                    self.a1_violations.append((self.cycles, t.username, t.remote_path))
+                    # A1 is about tasks that have not run their first segment yet (a task that is about to finish does not count)
+                    if inspect.getcoroutinestate(t._transfer_task.get_coro()) == 'CORO_CREATED':
+                        self.a1_violations.append((self.cycles, t.username, t.remote_path))
+                    self.last_skipped.add(id(t))
+                elif t.is_upload() and t.state.VALUE.name == 'QUEUED' and t._state_lock.locked():
+                    self.last_skipped.add(id(t))
             self.cycles += 1
             return orig_mt()
         tm._initialize_upload = iu
@@ -130,7 +138,11 @@ class TW:
 
     def _send_addr(self, username):
         from aioslsk.protocol.messages import GetPeerAddress
-        if username in self.names:
+        self._addr_n = getattr(self, '_addr_n', 0) + 1
+        if username in self.names and self._addr_n % 2 == 0:
+            # every other reply comes from an old server: the optional obfuscated-port fields are absent
+            r = GetPeerAddress.Response(username, ip=self.user_ip(username), port=2000)
+        elif username in self.names:
             r = GetPeerAddress.Response(username, ip=self.user_ip(username), port=2000, obfuscated_port_amount=0, obfuscated_port=0)
         else:
             r = GetPeerAddress.Response(username, ip='0.0.0.0', port=0, obfuscated_port_amount=0, obfuscated_port=0)
@@ -230,9 +242,11 @@ class TW:
         self.w.server_send(GetUserStatus.Response(name, status_value, privileged))
         self.settle()
 
-    def set_friend(self, name, flag: bool):
+    def set_friend(self, name, flag: bool, replace: bool = False):
         fr = self.w.settings.users.friends
-        if flag:
+        if replace:     # the application assigns a new set object (settings dialog) instead of mutating the old one
+            self.w.settings.users.friends = (set(fr) | {name}) if flag else (set(fr) - {name})
+        elif flag:
             fr.add(name)
         else:
             fr.discard(name)
